@@ -39,6 +39,25 @@ def specs():
     return out
 
 
+def _prove_formula(hyp, goal, out):
+    """(1) E-matching only (fast on these VCs), (2) z3 default (MBQI) as second opinion; solver budgets are wall-clock, so an
+    `unknown` gets one more attempt with four times the budget (a loaded machine must not turn a proof into "undecided")."""
+    import z3
+    verdict = 'unknown'
+    for cfg, mult in (('ematching', 1), ('default', 1), ('ematching', 4)):
+        s_ = z3.Solver()
+        if cfg == 'ematching':
+            s_.set('auto_config', False); s_.set('smt.mbqi', False); s_.set('timeout', mult * max(5000, TIMEOUT_MS // 3))
+        else:
+            s_.set('timeout', mult * TIMEOUT_MS)
+        for x in hyp: s_.add(x)
+        s_.add(z3.Not(goal))
+        t1 = time.time(); r = s_.check(); out['solver_s'] += time.time() - t1
+        if r == z3.unsat: return 'unsat'
+        if r == z3.sat and cfg == 'default': return 'sat'
+    return verdict
+
+
 def _verify(item):
     name, cls, meth, params = item
     if meth == 'extend':
@@ -114,20 +133,7 @@ def _verify(item):
             return v_
 
         def _prove(hyp, goal):
-            # (1) E-matching only (fast on these VCs), (2) z3 default (MBQI) as second opinion
-            verdict = 'unknown'
-            for cfg in ('ematching', 'default'):
-                s = z3.Solver()
-                if cfg == 'ematching':
-                    s.set('auto_config', False); s.set('smt.mbqi', False); s.set('timeout', max(5000, TIMEOUT_MS // 3))
-                else:
-                    s.set('timeout', TIMEOUT_MS)
-                for x in hyp: s.add(x)
-                s.add(z3.Not(goal))
-                t1 = time.time(); r = s.check(); out['solver_s'] += time.time() - t1
-                if r == z3.unsat: return 'unsat'
-                if r == z3.sat and cfg == 'default': verdict = 'sat'
-            return verdict
+            return _prove_formula(hyp, goal, out)
 
         allowed = {'IndexError': lambda: z3.BoolVal(True) if 'index' in info else z3.BoolVal(False),
                    'RuntimeError': lambda: sel(h0.fixed, self_)}
@@ -336,19 +342,7 @@ def _verify_extend(item):
         failing = []
 
         def _prove(hyp, goal):
-            verdict = 'unknown'
-            for cfg in ('ematching', 'default'):
-                s_ = z3.Solver()
-                if cfg == 'ematching':
-                    s_.set('auto_config', False); s_.set('smt.mbqi', False); s_.set('timeout', max(5000, TIMEOUT_MS // 3))
-                else:
-                    s_.set('timeout', TIMEOUT_MS)
-                for x in hyp: s_.add(x)
-                s_.add(z3.Not(goal))
-                t1 = time.time(); r = s_.check(); out['solver_s'] += time.time() - t1
-                if r == z3.unsat: return 'unsat'
-                if r == z3.sat and cfg == 'default': verdict = 'sat'
-            return verdict
+            return _prove_formula(hyp, goal, out)
 
         def prove(nm, pc, goal):
             t1 = time.time()
@@ -647,19 +641,7 @@ def _verify_set_streams(item):
         failing = []
 
         def _prove(hyp, goal):
-            verdict = 'unknown'
-            for cfg in ('ematching', 'default'):
-                s_ = z3.Solver()
-                if cfg == 'ematching':
-                    s_.set('auto_config', False); s_.set('smt.mbqi', False); s_.set('timeout', max(5000, TIMEOUT_MS // 3))
-                else:
-                    s_.set('timeout', TIMEOUT_MS)
-                for x in hyp: s_.add(x)
-                s_.add(z3.Not(goal))
-                t1 = time.time(); r = s_.check(); out['solver_s'] += time.time() - t1
-                if r == z3.unsat: return 'unsat'
-                if r == z3.sat and cfg == 'default': verdict = 'sat'
-            return verdict
+            return _prove_formula(hyp, goal, out)
 
         def prove(nm, pc, goal):
             t1 = time.time()
@@ -874,19 +856,7 @@ def _verify_unit_op(item):
         out['contract_calls'] = len(calls)
 
         def _prove(hyp, goal):
-            verdict = 'unknown'
-            for cfg in ('ematching', 'default'):
-                s_ = z3.Solver()
-                if cfg == 'ematching':
-                    s_.set('auto_config', False); s_.set('smt.mbqi', False); s_.set('timeout', max(5000, TIMEOUT_MS // 3))
-                else:
-                    s_.set('timeout', TIMEOUT_MS)
-                for x in hyp: s_.add(x)
-                s_.add(z3.Not(goal))
-                t1 = time.time(); r = s_.check(); out['solver_s'] += time.time() - t1
-                if r == z3.unsat: return 'unsat'
-                if r == z3.sat and cfg == 'default': verdict = 'sat'
-            return verdict
+            return _prove_formula(hyp, goal, out)
 
         def prove(nm, pc, goal):
             out['obligations'].append((nm, _prove(hyps + pc, goal)))
